@@ -1,7 +1,11 @@
 /-
 L6 (i) — the LEXER.  `text → List (List Tok)`.
 
-What is modelled (and compared with Python by the correspondence, *not* proven):
+What is modelled and compared with Python by the correspondence.  (Proven about it, in
+`Lemmas/IOText*.lean` / `Props/C06/Text.lean` / `Props/C12/Text.lean`: on the text the DIMACS and OPB writers
+emit, `lex` returns exactly the token rows of the token-level writers — `pyInt? (intStr z) = some z` up to
+`maxStrDigits` digits, `splitWS` of blank-joined tokens, `physLines` of newline-closed lines.  On any other
+text the lexer is compared with Python only.)
 * `readlines()` of a text stream: split at "\n" (after the universal-newline
   translation "\r\n", "\r" → "\n" when the stream is a text-mode file; a
   `StringIO` does not translate), no line for the empty tail;
